@@ -231,13 +231,14 @@ type Exec struct {
 	W       *bolt.Tx
 	R       map[string]*bolt.Tx
 	Cur     map[int]*curState
-	Verbose bool // full dumps instead of hashes
+	Shapes  map[int]string // cursor id -> tree shape of its bucket when the cursor was created
+	Verbose bool           // full dumps instead of hashes
 	Timeout time.Duration
 	OnOpen  func(db *bolt.DB)
 }
 
 func NewExec(path string, opts bolt.Options) *Exec {
-	return &Exec{Path: path, Opts: opts, R: map[string]*bolt.Tx{}, Cur: map[int]*curState{}, Timeout: 8 * time.Second}
+	return &Exec{Path: path, Opts: opts, R: map[string]*bolt.Tx{}, Cur: map[int]*curState{}, Shapes: map[int]string{}, Timeout: 8 * time.Second}
 }
 
 func (e *Exec) Open() error {
@@ -512,8 +513,10 @@ func (e *Exec) do(o Op) string {
 		var c *bolt.Cursor
 		if isRoot {
 			c = tx.Cursor()
+			e.Shapes[o.Cur] = tx.VerifRootShape()
 		} else {
 			c = b.Cursor()
+			e.Shapes[o.Cur] = b.VerifShape()
 		}
 		e.Cur[o.Cur] = &curState{c: c, tx: o.Tx}
 		return "ok"
